@@ -168,6 +168,15 @@ func (g *Gen) multiAssign() []Stmt {
 func (g *Gen) multiAssignOn(k Kind, a, b *Var) []Stmt {
 	g.cover("multiassign:%s,%s", a.storageName(), b.storageName())
 	c := ectx{depth: 2}
+	bounded := func(e Expr) Expr {
+		switch k {
+		case KStr:
+			return &EMethod{Obj: e, Name: "sub", Args: []Expr{Num(1), Num(8)}}
+		case KInt:
+			return Bin("%", e, Num(1000))
+		}
+		return e
+	}
 	switch g.R.Intn(6) {
 	case 0: // swap
 		return []Stmt{&SAssign{LHS: []Expr{a.Ref(), b.Ref()}, RHS: []Expr{b.Ref(), a.Ref()}}}
@@ -180,7 +189,7 @@ func (g *Gen) multiAssignOn(k Kind, a, b *Var) []Stmt {
 		}
 		return []Stmt{&SAssign{LHS: []Expr{a.Ref(), b.Ref()}, RHS: []Expr{b.Ref(), e}}}
 	case 2: // more targets than values
-		return []Stmt{&SAssign{LHS: []Expr{a.Ref(), b.Ref()}, RHS: []Expr{g.expr(k, c)}}, Assign1(b.Ref(), g.expr(k, c))}
+		return []Stmt{&SAssign{LHS: []Expr{a.Ref(), b.Ref()}, RHS: []Expr{bounded(g.expr(k, c))}}, Assign1(b.Ref(), bounded(g.expr(k, c)))}
 	case 3: // more values than targets
 		return []Stmt{&SAssign{LHS: []Expr{a.Ref()}, RHS: []Expr{b.Ref(), g.expr(k, c), g.expr(KAny, c)}}}
 	case 4:
